@@ -27,7 +27,8 @@ class World:
         self.ctx, self.rng, self.hid = ctx, rng, hid
         self.base = os.path.join(ctx.scratch_dir(), 'w%d' % hid)
         self.root = os.path.join(self.base, 'storage')
-        self.items = [os.path.join(self.base, 'src%d' % i) for i in range(nitems)]
+        # item roots share leading ancestors and then diverge through intermediate directories of their own
+        self.items = [os.path.join(self.base, 'src0')] + [os.path.join(self.base, 'tree%d' % (i % 2), 'in%d' % i, 'src%d' % i) for i in range(1, nitems)]
         os.makedirs(self.root)
         for it in self.items:
             os.makedirs(it)
